@@ -23,7 +23,7 @@ LEVEL_TEXT = (
 LEVEL_NOTE = "Trusted: networkx traversal primitives (descendants/ancestors/SCC), CPython, Hypothesis. Graphs <= 6/8 nodes; antichain brute force <= 14 weighted edges."
 RULE = (
     "case = (graph kind dag|digraph, graph with planted conserving flow on 'flow', op list); ops drawn by the state machine: "
-    "reach/reaching(node), reach_edges/reaching_edges(node, stDAG), scc_edge(edge), maxreach, width(ignored subset), antichain(weight kind), peel, bottleneck. "
+    "reach/reaching(node), reach_edges/reaching_edges(node, stDAG), scc_edge(edge), maxreach, width(ignored subset), width_bridge(some of several parallel inter-SCC edges ignored), antichain(weight kind), peel, bottleneck. "
     "non-trivial = >= 6 queries incl. a repeated one AND (digraph with >= 2 non-trivial SCCs or an antichain of size >= 2 "
     "or a peel with >= 2 paths); distinct = case hash."
 )
@@ -151,6 +151,25 @@ class Interp:
                     return
             if set(got.keys()) != set(H.edges()):
                 self.fail("maxreach_wrong", "result keys differ from the edge set")
+        elif name == "width_bridge":
+            # ignore some, but not all, of several parallel edges between the same two strongly connected components
+            scc = {}
+            for ci, comp in enumerate(nx.strongly_connected_components(self.G)):
+                for x in comp:
+                    scc[x] = ci
+            groups = {}
+            for idx, (u, v) in enumerate(self.base_edges):
+                if scc[u] != scc[v]:
+                    groups.setdefault((scc[u], scc[v]), []).append(idx)
+            groups = [g for _k, g in sorted(groups.items()) if len(g) >= 2]
+            if not groups:
+                return
+            g = groups[op[1] % len(groups)]
+            pick = [i for j, i in enumerate(g) if (op[2] >> j) & 1]
+            if not pick or len(pick) == len(g):
+                pick = g[:1]
+            self.flags["parallel_bridge_ignored"] += 1
+            self.apply(["width", pick, "explicit"])
         elif name == "width":
             ign = [self.base_edges[i % len(self.base_edges)] for i in op[1]]
             if len(set(ign)) >= len(self.base_edges):
@@ -351,6 +370,10 @@ def make_machine(tier, rec, raise_on_new):
         @rule(ign=st.lists(st.integers(0, 15), max_size=3), mode=st.sampled_from(["noargs", "explicit"]))
         def width(self, ign, mode):
             self._do(["width", ign, mode])
+
+        @rule(g=st.integers(0, 5), sub=st.integers(1, 7))
+        def width_bridge(self, g, sub):
+            self._do(["width_bridge", g, sub])
 
         @rule(kind=st.sampled_from(["unit", "mixed", "large", "zero"]), vals=st.lists(st.integers(0, 4), min_size=1, max_size=8), zero_synth=st.booleans())
         def antichain(self, kind, vals, zero_synth):
